@@ -466,7 +466,7 @@ def inbound_qos_table_rule(fx, v, prop='C04', rid='R-TABLE'):
         hits = [0]
         try:
             for flags in range(16):
-                def cv(x, flags=flags):
+                def cv(x, env_=None, flags=flags):
                     if callee_name(x) == 'get' and (x.get('fn', {}).get('ft') or [{}])[0].get('v') == 2 \
                             and contains(x.get('args', []), lambda m: m.get('k') == 'ref' and m.get('n') == pname):
                         hits[0] += 1
